@@ -384,9 +384,17 @@ type ScriptValidator struct {
 	mu    sync.Mutex
 	Next  VRes
 	Calls []VCall
+	// During, if set, is called (outside mu) while the validator is being consulted: what happens to the channel DURING a (re)validation
+	During func(method string)
 }
 
 func (s *ScriptValidator) out(c VCall) (datatransfer.ValidationResult, error) {
+	s.mu.Lock()
+	during := s.During
+	s.mu.Unlock()
+	if during != nil {
+		during(c.Method)
+	}
 	s.mu.Lock()
 	defer s.mu.Unlock()
 	c.VType = s.Type
